@@ -420,29 +420,37 @@ func checkSeq(c seqCase) evid.Outcome {
 	}
 	// Known finding K5: DevVersionReq / DevUpgradeImageReq / DevDeleteImageReq (firmware management,
 	// downlink) compare their size with the length of the REST of the buffer, so the stream decoder
-	// rejects anything that follows one of them. The failure is in that class iff the decoder returned
-	// an error, one of the three stands before the last position, and every piece of the sequence cut
-	// after each such command round-trips by itself (so nothing else is wrong).
-	if decodeErr {
-		var pieces []builtSeq
-		start := 0
-		for i, s := range q.specs {
-			if s.K5 && i < len(q.specs)-1 {
-				pieces = append(pieces, builtSeq{q.specs[start : i+1], q.vals[start : i+1], q.pls[start : i+1]})
-				start = i + 1
-			}
-		}
-		if len(pieces) > 0 {
-			pieces = append(pieces, builtSeq{q.specs[start:], q.vals[start:], q.pls[start:]})
-			for _, p := range pieces {
-				if pv, _ := p.roundTrip(c.Pkg, c.Up); pv != "" {
-					return evid.Fail("%s", pv)
-				}
-			}
-			return evid.Outcome{Violation: v + " [class K5: a fixed-length firmware-management request followed by another command]", Known: "K5", Class: cls + "/K5"}
-		}
+	// rejects anything that follows one of them. The failure is attributed to that class iff, walking
+	// through the sequence, every decode error appears exactly when one more command is appended
+	// directly behind one of the three to a prefix that round-trips; the walk then restarts at the
+	// appended command, so that every command and every other adjacency is still checked.
+	if !decodeErr {
+		return evid.Fail("%s", v)
 	}
-	return evid.Fail("%s", v)
+	sub := func(a, b int) builtSeq { return builtSeq{q.specs[a:b], q.vals[a:b], q.pls[a:b]} }
+	start, hits := 0, 0
+	for start < len(q.specs) {
+		k := start + 1
+		var pv string
+		var pErr bool
+		for ; k <= len(q.specs); k++ {
+			if pv, pErr = sub(start, k).roundTrip(c.Pkg, c.Up); pv != "" {
+				break
+			}
+		}
+		if pv == "" {
+			break // the rest round-trips
+		}
+		if !pErr || k-start < 2 || !q.specs[k-2].K5 {
+			return evid.Fail("%s", pv)
+		}
+		hits++
+		start = k - 1
+	}
+	if hits == 0 {
+		return evid.Fail("%s", v)
+	}
+	return evid.Outcome{Violation: v + " [class K5: a fixed-length firmware-management request followed by another command]", Known: "K5", Class: cls + "/K5"}
 }
 
 // ---------------------------------------------------------------------------
@@ -571,7 +579,7 @@ func TestProp(t *testing.T) {
 
 	evid.Rapid(r, t, "sequences",
 		"rapid: package x direction x 1..6 (90% >= 2) commands of that package and direction with in-range field values as in 'commands' (DataFragment only in last position), encoded with Commands.MarshalBinary. Oracle: no panic, no error, total length = sum of the specified sizes, Commands.UnmarshalBinary(direction) gives the same CIDs and field-by-field equal payloads. "+
-			"A decode error is attributed to known finding K5 iff a DevVersionReq / DevUpgradeImageReq / DevDeleteImageReq stands before the last position AND every piece of the sequence cut after each such command round-trips on its own. Non-trivial: >= 2 commands.",
+			"A decode error is attributed to known finding K5 iff it appears exactly when a command is appended directly behind a DevVersionReq / DevUpgradeImageReq / DevDeleteImageReq to a prefix that round-trips (the walk restarts at the appended command, so every command and every other adjacency of the sequence is still checked). Non-trivial: >= 2 commands.",
 		60000, 3500000, genSeq, checkSeq)
 
 	evid.Rapid(r, t, "multicast-keys",
